@@ -1953,6 +1953,15 @@ static int64_t eval_div(Node *node, bool is_mod) {
   return is_mod ? lhs % rhs : lhs / rhs;
 }
 
+// The truth value of a constant operand; a floating operand is
+// tested as such, not after truncation to an integer.
+static bool eval_truth(Node *node) {
+  add_type(node);
+  if (is_flonum(node->ty))
+    return eval_double(node) != 0;
+  return eval(node) != 0;
+}
+
 static int64_t eval2_raw(Node *node, char ***label) {
   switch (node->kind) {
   case ND_ADD:
@@ -1980,29 +1989,37 @@ static int64_t eval2_raw(Node *node, char ***label) {
       return (uint64_t)eval(node->lhs) >> eval(node->rhs);
     return eval(node->lhs) >> eval(node->rhs);
   case ND_EQ:
+    if (is_flonum(node->lhs->ty))
+      return eval_double(node->lhs) == eval_double(node->rhs);
     return eval(node->lhs) == eval(node->rhs);
   case ND_NE:
+    if (is_flonum(node->lhs->ty))
+      return eval_double(node->lhs) != eval_double(node->rhs);
     return eval(node->lhs) != eval(node->rhs);
   case ND_LT:
+    if (is_flonum(node->lhs->ty))
+      return eval_double(node->lhs) < eval_double(node->rhs);
     if (node->lhs->ty->is_unsigned)
       return (uint64_t)eval(node->lhs) < eval(node->rhs);
     return eval(node->lhs) < eval(node->rhs);
   case ND_LE:
+    if (is_flonum(node->lhs->ty))
+      return eval_double(node->lhs) <= eval_double(node->rhs);
     if (node->lhs->ty->is_unsigned)
       return (uint64_t)eval(node->lhs) <= eval(node->rhs);
     return eval(node->lhs) <= eval(node->rhs);
   case ND_COND:
-    return eval(node->cond) ? eval2(node->then, label) : eval2(node->els, label);
+    return eval_truth(node->cond) ? eval2(node->then, label) : eval2(node->els, label);
   case ND_COMMA:
     return eval2(node->rhs, label);
   case ND_NOT:
-    return !eval(node->lhs);
+    return !eval_truth(node->lhs);
   case ND_BITNOT:
     return ~eval(node->lhs);
   case ND_LOGAND:
-    return eval(node->lhs) && eval(node->rhs);
+    return eval_truth(node->lhs) && eval_truth(node->rhs);
   case ND_LOGOR:
-    return eval(node->lhs) || eval(node->rhs);
+    return eval_truth(node->lhs) || eval_truth(node->rhs);
   case ND_CAST:
     add_type(node->lhs);
     if (is_flonum(node->lhs->ty)) {
